@@ -8,7 +8,11 @@
 ID=$1; N=$2
 P=/tmp/wt/${ID}_${N}/_out/patch.diff
 git -C /tmp/wt/evalrepo checkout -q -- .
+# (rebuild so that the scratch binary never stays linked against a patched tree)
+cd /tmp/hscratch && CARGO_NET_OFFLINE=true RUSTFLAGS="--cfg metrics_verif" cargo build --release --offline >/dev/null 2>&1
 git -C /tmp/wt/evalrepo apply "$P" || { echo "patch does not apply"; exit 2; }
 cd /tmp/hscratch && CARGO_NET_OFFLINE=true RUSTFLAGS="--cfg metrics_verif" cargo build --release --offline 2>&1 | grep -E "^error" -A8 | head -20
-VERIF_ROOT=/tmp/hroot timeout 900 ./target/release/harness "$ID" 2>&1 | grep -E "violation in|^OK|VIOLATION|inconclusive" | cut -c1-330 | head -4
+VERIF_REPO_ROOT=/tmp/wt/evalrepo VERIF_ROOT=/tmp/hroot timeout 900 ./target/release/harness "$ID" 2>&1 | grep -E "violation in|^OK|VIOLATION|inconclusive" | cut -c1-330 | head -4
 git -C /tmp/wt/evalrepo checkout -q -- .
+# (rebuild so that the scratch binary never stays linked against a patched tree)
+cd /tmp/hscratch && CARGO_NET_OFFLINE=true RUSTFLAGS="--cfg metrics_verif" cargo build --release --offline >/dev/null 2>&1
